@@ -37,7 +37,7 @@ def s1_s2_s3_execute(ctx):
     for p in normal(ps):
         cs = [e for e in p.flat_events() if e.kind == 'call' and 'Portfolio.transact_asset' in e.callee]
         if len(cs) != 1:
-            ctx.violation('C05.S1', 'an executed order produces exactly one fill [%s]' % cond_str(p), fn.site(), '%d' % len(cs), key='C05.S1|one-fill')
+            ctx.violation('C05.S1', 'an executed order produces exactly one fill [%s]' % cond_str(p), fn.site(), __import__('qsverif.lib', fromlist=['read_marker']).read_marker(ctx, p) + '%d fills' % len(cs), key='C05.S1|one-fill')
             continue
         txn = cs[0].args.get('txn')
         if not (txn is not None and txn[0] == 'new'):
